@@ -376,7 +376,10 @@ func TestCheck(t *testing.T) {
 func checkC15(t *testing.T, env core.Env, rep *core.Report) {
 	rep.Rule = "one evaluation = one complete interleaving (schedule) of one scenario: 2 concurrent Chains.Add calls (every unordered pair of nodes of every blueprint, incl. the same header twice) on a store holding the remaining nodes or not, optionally with a reader thread; scheduling points = entries of repository.Headers methods; non-trivial = the schedule has at least one preemption; distinct by (scenario, schedule)"
 	n := 3
-	rep.Bound = fmt.Sprintf("[2 submitters: all interleavings (unbounded) for every blueprint N=%d |W|=2 x every pair (x,y), x==y included, third node stored before or absent] [2 submitters + 1 reader (tip | byheight | tips, two reads): preemption bound 2 on the fork/reorg blueprints]", n)
+	if env.Tier == "thorough" {
+		n = 4
+	}
+	rep.Bound = fmt.Sprintf("[2 submitters: all interleavings (unbounded) for every blueprint N=%d |W|=2 x every pair (x,y), x==y included, remaining nodes stored before or absent; thorough: N=4 and additionally 3 concurrent submitters] [2 submitters + 1 reader (tip | byheight | tips, two reads): preemption bound 2 on the fork/reorg blueprints]", n)
 	var evals int64
 	idx := 0
 	distinct := 0
@@ -398,8 +401,26 @@ func checkC15(t *testing.T, env core.Env, rep *core.Report) {
 				if len(others) > 0 {
 					pres = append(pres, others)
 				}
+				type variant struct {
+					pre, adds []int
+				}
+				var vs []variant
 				for _, pre := range pres {
-					adds := []int{x, y}
+					vs = append(vs, variant{pre, []int{x, y}})
+				}
+				if env.Tier == "thorough" && x == 1 && y == 2 {
+					// three concurrent submitters: the first three nodes at once, the rest stored or absent
+					var rest []int
+					for z := 4; z <= n; z++ {
+						rest = append(rest, z)
+					}
+					vs = append(vs, variant{nil, []int{1, 2, 3}})
+					if len(rest) > 0 {
+						vs = append(vs, variant{rest, []int{1, 2, 3}})
+					}
+				}
+				for _, v := range vs {
+					pre, adds := v.pre, v.adds
 					readers := []string{""}
 					if forky(b) && len(pre) > 0 {
 						readers = append(readers, "tip", "byheight", "tips")
